@@ -74,4 +74,11 @@ let () =
        cat [vd v; hz d'], out) | _ -> failwith "arity");
   reg "dcf" (fun c -> function [d; c2; out] ->
       ((match decrypt_final c.g (z d) (z c2) with None -> "none" | Some m -> hz m), out) | _ -> failwith "arity");
+  let pc = function p :: q :: h :: gs :: rest -> ({ pc_p = z p; pc_q = z q; pc_h = z h; pc_g = List.map z (split ',' gs) }, rest) | _ -> failwith "pcom" in
+  register "pcm" (fun toks -> match pc toks with (c, [ms; raw; out]) ->
+      ((match commit c (z raw) (List.map z (split ',' ms)) with None -> "none" | Some (cc, r) -> cat [hz cc; hz r]), out) | _ -> failwith "arity");
+  register "pcb" (fun toks -> match pc toks with (c, [ms; r; prot; out]) ->
+      ((match commit_by c (z r) (List.map z (split ',' ms)) (b1 prot) with None -> "none" | Some cc -> hz cc), out) | _ -> failwith "arity");
+  register "pcv" (fun toks -> match pc toks with (c, [cc; r; ms; out]) ->
+      (vd (pverify c (z cc) (z r) (List.map z (split ',' ms))), out) | _ -> failwith "arity");
   main ()
